@@ -227,4 +227,15 @@ def specRun (log : List Reg) : List Op → List Out
   | [] => []
   | op :: ops => specOut log op :: specRun (log ++ regOf op) ops
 
+/-! ### Decider for "each callable is registered at most once per event" (Props/C12)
+
+The assumption under which the correspondence generates histories (every registration uses a
+fresh callable) and under which "each once" speaks about listeners rather than registrations.
+Evaluated by the driver on the log of every generated history (`c12.run`, field `wf`). -/
+
+/-- no two registrations in the log are for the same event with the same listener -/
+def regOnceB : List Reg → Bool
+  | [] => true
+  | r :: t => !(t.any (fun x => r.ev == x.ev && r.l == x.l)) && regOnceB t
+
 end Clikit.Dispatcher
